@@ -145,6 +145,7 @@ type Tr struct {
 	pure          int
 	inCallback    int
 	epochA        map[int]string    // heap epoch -> allocation counter at its start
+	ifaceDyn      map[string]types.Type // interface-valued term -> its evident dynamic type (or the nil interface)
 	heapA         map[string]string // heap array term -> allocation counter when it was written
 	closureBindings []Val
 	callTexts     map[token.Pos]string
@@ -171,6 +172,14 @@ func (tr *Tr) define(sortS, term, hint string) string {
 	}
 	defCtr++
 	n := fmt.Sprintf("%s~%d", mangle(hint), defCtr)
+	if strings.HasPrefix(sortS, "(Array Int ") && (strings.HasPrefix(term, "(ite ") || strings.Contains(term, "~")) {
+		// a heap version built from other definitions (a merge, or a store of a defined value): a
+		// declared name with a defining equation, not a macro -- quantifier patterns mention heap
+		// versions, and a macro would put the `ite`s of its expansion into the pattern
+		tr.raw(fmt.Sprintf("(declare-const %s %s)", n, sortS))
+		tr.raw(fmt.Sprintf("(assert (= %s %s))", n, term))
+		return n
+	}
 	tr.raw(fmt.Sprintf("(define-fun %s () %s %s)", n, sortS, term))
 	if d, ok := storeDefs[term]; ok {
 		storeDefs[n] = d
@@ -392,7 +401,12 @@ func (tr *Tr) wf(v Val) string {
 		if isString(v.Ty) {
 			return and(app("bvsle", bvI(0, 64), app("slen", v.T)), app("bvslt", app("slen", v.T), bvI(1<<48, 64)))
 		}
-	case *types.Map, *types.Chan, *types.Signature:
+	case *types.Map:
+		// maps of different Go types are different objects (their SMT representation shares heap arrays
+		// per key/value sort, so the distinction is stated through a type tag of the reference)
+		tr.C.declare("maptype", "(declare-fun maptype (Int) Int)")
+		return and(app(">=", v.T, "0"), implies(not(eq(v.T, "0")), eq(app("maptype", v.T), strconv.Itoa(tr.C.typeID(v.Ty.Underlying())))))
+	case *types.Chan, *types.Signature:
 		return app(">=", v.T, "0")
 	case *types.Interface:
 		return and(app(">=", app("i.typ", v.T), "0"), implies(eq(app("i.typ", v.T), "0"), eq(app("i.val", v.T), "0")))
@@ -505,6 +519,14 @@ func (tr *Tr) makeIface(v Val) string {
 	bx := app(b, v.T)
 	tr.raw("(assert " + and(eq(app(u, bx), v.T), app("<", bx, "0")) + ")")
 	return app("mkiface", id, bx)
+}
+
+// noteDyn records that the interface value denoted by term has dynamic type t (or is the nil interface).
+func (tr *Tr) noteDyn(term string, t types.Type) {
+	if tr.ifaceDyn == nil {
+		tr.ifaceDyn = map[string]types.Type{}
+	}
+	tr.ifaceDyn[term] = t
 }
 
 func (tr *Tr) unboxIface(x string, t types.Type) Val {
